@@ -116,4 +116,13 @@ pub assume_specification<'a> [quick_xml::events::BytesText::<'a>::into_inner] (t
 pub assume_specification<'a> [quick_xml::events::BytesCData::<'a>::into_inner] (t: quick_xml::events::BytesCData<'a>) -> (c: std::borrow::Cow<'a, [u8]>)
     ensures bytes_of(c) == cdata_bytes(t);
 
+
+// ---------- A6: trusted leaf Element::merge_attr (`mut self` receiver is not supported by Verus) ----------
+pub assume_specification<T: std::cmp::PartialEq + std::fmt::Display + std::fmt::Debug> [crate::element::Element::<T>::merge_attr] (e: crate::element::Element<T>, a: Vec<crate::necessity::Necessity<T>>) -> (r: crate::element::Element<T>)
+    requires eq_is_structural::<T>(),
+    ensures
+        r.attributes@ == crate::necessity::spec_merge(e.attributes@, a@),
+        r.name == e.name, r.text == e.text, r.standalone == e.standalone, r.count == e.count,
+        r.children == e.children, r.position == e.position;
+
 } // verus!
